@@ -428,8 +428,24 @@ Definition estimate (freq orig_freq max_freq : N) : outcome N :=
   else
     let base := ((max_freq - orig_freq) / 5 + 1)%N in
     let delta := if N.leb max_freq freq then N.min base SHORT_INCREASE_FREQ else N.max base SHORT_INCREASE_FREQ in
+    (* phrase.freq().saturating_add(delta).min(MAX_USER_FREQ) since the fix of the wrapping addition *)
+    Ok (N.min (N.min (freq + delta) U32_MAX) MAX_USER_FREQ).
+
+(* the pinned code: `(phrase.freq() + delta).min(MAX_USER_FREQ)` - the u32 addition overflows when two phrases of
+   a key carry frequencies within ten of 2^32 (debug build: panic; release build: wraps, the learned frequency
+   drops to a single digit) *)
+Definition estimate_pinned (freq orig_freq max_freq : N) : outcome N :=
+  if N.ltb max_freq orig_freq then Panic 401
+  else
+    let base := ((max_freq - orig_freq) / 5 + 1)%N in
+    let delta := if N.leb max_freq freq then N.min base SHORT_INCREASE_FREQ else N.max base SHORT_INCREASE_FREQ in
     if N.ltb U32_MAX (freq + delta) then Panic 402           (* u32 overflow (debug build) *)
     else Ok (N.min (freq + delta) MAX_USER_FREQ).
+(* ... and what a release build of the pinned code computes (the addition wraps) *)
+Definition estimate_pinned_release (freq orig_freq max_freq : N) : N :=
+  let base := ((max_freq - orig_freq) / 5 + 1)%N in
+  let delta := if N.leb max_freq freq then N.min base SHORT_INCREASE_FREQ else N.max base SHORT_INCREASE_FREQ in
+  N.min ((freq + delta) mod 4294967296) MAX_USER_FREQ.
 
 Fixpoint max_freq_of (l : list phrase) (acc : N) : N :=
   match l with [] => acc | p :: l' => max_freq_of l' (N.max acc (snd p)) end.
